@@ -45,7 +45,7 @@ CLAUSES = ["stencil-eigenvalue", "stencil-eigenvalue-exhaustive", "stencil-linea
            "coefficient-exact", "bad-accuracy-refused", "laplace-operator-eigenvalue", "vacuum-intensity",
            "vacuum-phase-model", "lazy-equals-eager:values"]
 QUICK = dict(n=30, time=30)
-THOROUGH = dict(n=640, time=380, shards=16)
+THOROUGH = dict(n=1340, time=480, shards=16)
 
 ACCURACIES = [2, 4, 6, 8, 10, 12, 14, 16, 18]
 PREFACTORS = [1.0, 285.7142857142857, -0.0123]
